@@ -41,6 +41,9 @@ type SubEvent struct {
 	Fragmented bool `json:"fragmented,omitempty"`
 	// EmptyErrors: the upstream sends "errors": [] next to the data (many servers always send the key): no error at all
 	EmptyErrors bool `json:"empty_errors,omitempty"`
+	// ChildFail (with Partial): the services answer the child requests of this event with status 500; the upstream's
+	// own errors must still reach the client (C10), whatever else is reported
+	ChildFail bool `json:"child_fail,omitempty"`
 }
 
 // extraKey reports a key of got that the reference answer does not have at the same place (a helper field that was not removed).
@@ -307,6 +310,19 @@ func checkC17(c *SubCase) (*ev.Failure, string) {
 			if l, _ := pl["errors"].([]interface{}); len(l) == 0 {
 				return ev.Failf("error-not-forwarded", "upstream errors of partial event %d were not forwarded: %s", k, trunc(string(f.Payload), 300)), ""
 			}
+			if e.ChildFail {
+				found := false
+				for _, x := range pl["errors"].([]interface{}) {
+					if m, _ := x.(map[string]interface{}); m != nil && strings.Contains(fmt.Sprint(m["message"]), "partial failure") {
+						found = true
+					}
+				}
+				if !found {
+					return ev.Failf("error-lost:upstream", "event %d of subscription %s: the upstream sent data with the error \"partial failure %d\" and the child requests failed; the upstream's error did not reach the client: %s", k, sp.ID, k, trunc(string(f.Payload), 400)), ""
+				}
+				delivered++
+				return nil, ""
+			}
 			if x := extraKey(map[string]interface{}(expected), refexec.Normalize(pl["data"]), "data"); x != "" {
 				return ev.Failf("payload-mismatch:extra-key", "event %d of subscription %s (%s), delivered with upstream errors, carries %s which the client did not select: %s", k, sp.ID, trunc(sp.Op.Query, 150), x, trunc(string(f.Payload), 400)), ""
 			}
@@ -374,6 +390,14 @@ func checkC17(c *SubCase) (*ev.Failure, string) {
 				payload["errors"] = []interface{}{map[string]interface{}{"message": fmt.Sprintf("partial failure %d", k)}}
 				resp.Errors = gqlerrors.ErrorList{gqlerrors.NewError("PARTIAL", fmt.Errorf("partial failure %d", k))}
 			}
+			if e.Partial && e.ChildFail {
+				net.SetFault(func(callIdx int, url string, reqs []*fake.Received, normal []map[string]interface{}) *fake.FaultResponse {
+					if len(reqs) > 0 && strings.Contains(reqs[0].Query, "node(id: $id)") {
+						return &fake.FaultResponse{Status: 500, Body: []byte(`{"errors":[{"message":"child service down"}]}`)}
+					}
+					return nil
+				})
+			}
 			if c.RealWS {
 				send := rt.ws.Send
 				if e.Fragmented {
@@ -399,6 +423,7 @@ func checkC17(c *SubCase) (*ev.Failure, string) {
 			}
 		}
 		pending = nil
+		net.SetFault(nil)
 		// stitching one event costs what a query costs (C12): per service at most one batched call per plan level
 		if single && !c.RealWS && !e.Error && !e.Partial && rt.childLevels != nil && c.Config.MaxBatch == 0 {
 			for url, n := range callsPerService(net.Snapshot()) {
@@ -465,7 +490,28 @@ func genSubCase(t *rapid.T, rec *ev.Recorder) (*SubCase, []string) {
 		// the same operation subscribed twice (with the caching planner both share one plan)
 		if i+1 < nsubs && rapid.IntRange(0, 2).Draw(t, "again") == 0 {
 			i++
-			c.Subs = append(c.Subs, SubSpec{Conn: rapid.IntRange(0, c.Conns-1).Draw(t, "conn2"), ID: fmt.Sprintf("s%d", i+1), Op: *op, Field: field})
+			op2 := *op
+			if doc, errs := gqlparser.LoadQuery(union, op.Query); errs == nil && len(op.Variables) > 0 && rapid.Bool().Draw(t, "againothervars") {
+				// the second start leaves out the variables that have a declared default (the first one supplied values)
+				vars := map[string]interface{}{}
+				for k, v := range op.Variables {
+					vars[k] = v
+				}
+				dropped := false
+				for _, o := range doc.Operations {
+					for _, vd := range o.VariableDefinitions {
+						if _, has := vars[vd.Variable]; has && vd.DefaultValue != nil {
+							delete(vars, vd.Variable)
+							dropped = true
+						}
+					}
+				}
+				if dropped {
+					op2.Variables = vars
+					labels = append(labels, "sameOperationTwiceOtherVariables")
+				}
+			}
+			c.Subs = append(c.Subs, SubSpec{Conn: rapid.IntRange(0, c.Conns-1).Draw(t, "conn2"), ID: fmt.Sprintf("s%d", i+1), Op: op2, Field: field})
 			labels = append(labels, "sameOperationTwice")
 		}
 	}
@@ -496,6 +542,10 @@ func genSubCase(t *rapid.T, rec *ev.Recorder) (*SubCase, []string) {
 		if !e.Error && rapid.IntRange(0, 7).Draw(t, "evpartial") == 0 {
 			e.Partial = true
 			labels = append(labels, "upstreamErrorsWithData")
+			if rapid.IntRange(0, 2).Draw(t, "evchildfail") == 0 {
+				e.ChildFail = true
+				labels = append(labels, "partialEventWithFailingChildRequests")
+			}
 		}
 		c.Events = append(c.Events, e)
 	}
@@ -518,7 +568,7 @@ func genSubCase(t *rapid.T, rec *ev.Recorder) (*SubCase, []string) {
 
 func TestC17(t *testing.T) {
 	rec := ev.Get("C17")
-	rec.Rule = "worlds with Subscription fields whose payload crosses services x 1..3 generated subscription operations over 1..2 client connections (harness-owned net.Pipe through an http.Hijacker) x 0..8 upstream events in a drawn order, each event's root value drawn from the store; in a third of the cases every leaf value of every service changes between events (data epochs); selections reach depth 3..6; a sixth of the events carry an empty errors list next to their data; the real upstream sends keep-alives and a fifth of its data messages in two websocket frames; upstream either an in-process scripted Queryer (80%) or a real graphql-ws server on loopback behind the real MultiOpQueryer.Subscribe (20%, also upstream errors); the upstream answers every event by executing the gateway's own root sub-query on the owning service's schema. Oracle: after each emission the subscribing connection receives exactly one data message with that subscription's id whose payload equals the reference executor on the union schema (pruned), upstream errors are forwarded as errors, nothing extra arrives, and (scripted upstream, default batch size) per event and service the number of batched calls is at most the number of plan levels below the root; non-trivial = >=2 events and a payload needing >=1 child step, or >=2 concurrent subscriptions; distinct by hash(case)"
+	rec.Rule = "worlds with Subscription fields whose payload crosses services x 1..3 generated subscription operations over 1..2 client connections (harness-owned net.Pipe through an http.Hijacker) x 0..8 upstream events in a drawn order, each event's root value drawn from the store; in a third of the cases every leaf value of every service changes between events (data epochs); selections reach depth 3..6; a sixth of the events carry an empty errors list next to their data; a repeated start of an operation may leave out the variables that have declared defaults; a third of the partial events have failing child requests (the upstream's error must still reach the client); the real upstream sends keep-alives and a fifth of its data messages in two websocket frames; upstream either an in-process scripted Queryer (80%) or a real graphql-ws server on loopback behind the real MultiOpQueryer.Subscribe (20%, also upstream errors); the upstream answers every event by executing the gateway's own root sub-query on the owning service's schema. Oracle: after each emission the subscribing connection receives exactly one data message with that subscription's id whose payload equals the reference executor on the union schema (pruned), upstream errors are forwarded as errors, nothing extra arrives, and (scripted upstream, default batch size) per event and service the number of batched calls is at most the number of plan levels below the root; non-trivial = >=2 events and a payload needing >=1 child step, or >=2 concurrent subscriptions; distinct by hash(case)"
 	defer census.dump("C17")
 	rapid.Check(t, func(t *rapid.T) {
 		c, labels := genSubCase(t, rec)
